@@ -44,7 +44,7 @@ theorem C01_tables_shape :
        ("_check_array_element_type", ["in:BASIC_GIR_TYPES", "in:POINTER_TYPES", "isa:Bitfield", "isa:Enum"]),
        ("_check_instance_parameter", ["destroy", "free", "has:ANN_NULLABLE"]),
        ("_get_transfer_default_param", []),
-       ("_is_pointer_type", ["*", "in:BASIC_TYPES", "isa:Return", "isa:Type"]),
+       ("_is_pointer_type", ["*", "in:BASIC_TYPES", "isa:Return", "isa:Type", "none:ctype"]),
        ("_pass3_callable_callbacks", ["GLib.DestroyNotify", "Gio.AsyncReadyCallback", "attr:Gio.AsyncReadyCallback", "data", "isa:Callback", "none:argname", "none:closure_name"]),
        ("_pass3_callable_references", ["GError**", "isa:Array"]),
        ("_pass3_callable_throws", ["GError**"]),
